@@ -987,7 +987,7 @@ func queueTags(in, out string) (bool, []string) {
 }
 
 func main() {
-	tr.Main("C10 (stack, mlink): L = histories of one mlink.List edited through up to ~7 cursors handed out by At/Last/End/Find (neighbouring cursors on purpose, so that Remove/Truncate/Clear leave stale ones which are then used; panics recovered, hangs caught by a watchdog): exhaustively all 2-op (quick) / 3-op (thorough) continuations over every cursor x {rm,trunc,push,add,set,next} + clear from a 3-element list with a cursor at every position, scripted Truncate-then-Add-at-End and stale-cursor scenarios, and random histories of 6-30 ops; Q = queue histories from NewQueue and from a zero Queue: exhaustively all sequences over {add,pop,clear,front} to length 7 (quick) / 9 (thorough) and random ones that empty the queue often; S = stack histories, exhaustive to length 6/7 over {push,pop,clear,peek} and random.  After every op the full contents (Each), Len, IsEmpty and every cursor's AtEnd/Get (Front/Peek/Top/Slice for Q and S) are recorded.  Scale streams (every tier): each container grown to 2^k-1, 2^k, 2^k+1 elements (stack k<=11 and 2^12+1, queue k<=10, list k<=10 and one size at 2^11 in the quick tier; stack k<=13, queue and list k<=11 and one list of 2^12 thorough) and a few random sizes, drained by single Pop/Remove calls (lists also by Truncate and through a middle cursor) to 1/2, 1/4, 1/8, 1/16 of that and to one element, regrown (at a varying point and at the end) and drained past empty; after every phase the whole contents (Slice/Each as a digest above 200 values), Len, IsEmpty, Top/Front, Peek at the top, in the middle, at the last element and past it, and the order of the popped values; up to 2^9 (stack) / 2^6 (queue, list) every fraction is crossed by four single, individually observed calls.  Non-trivial: a list history in which a stale cursor was observed or used, a cursor sat at the end, or Truncate was followed by Add at End; a queue history with Add after the queue was emptied; every stack history with a pop.  Round 5 (stacktyped.go): S<t><c> lines = stack.Stack at int, byte, bool, int16, [3]byte, float32, *int, string and a 40-byte struct (element codes mapped to values in the harness) from New and from the zero value: every history over {push, push of a second code, pop, clear, slice, peek:0} to depth 4 (zero value) / 3 (New) (thorough 5/4), snapshots returned by Slice kept and compared after every later op, extreme offsets, random histories, op reach = Each whose callback calls Len/IsEmpty/Top/Peek/nested Each/Slice of the same stack at every element plus two iter.Pull iterations zipped, sizes 7..257 grown, drained to 1/2..1/16 and regrown (one quiet history of 1025 elements for a third of the types), and spec-only histories of exactly 2^15-1 .. 2^16+1 elements (quick 2, thorough 28).",
+	tr.Main("C10 (stack, mlink): L = histories of one mlink.List edited through up to ~7 cursors handed out by At/Last/End/Find (neighbouring cursors on purpose, so that Remove/Truncate/Clear leave stale ones which are then used; panics recovered, hangs caught by a watchdog): exhaustively all 2-op (quick) / 3-op (thorough) continuations over every cursor x {rm,trunc,push,add,set,next} + clear from a 3-element list with a cursor at every position, scripted Truncate-then-Add-at-End and stale-cursor scenarios, and random histories of 6-30 ops; Q = queue histories from NewQueue and from a zero Queue: exhaustively all sequences over {add,pop,clear,front} to length 7 (quick) / 9 (thorough) and random ones that empty the queue often; S = stack histories, exhaustive to length 6/7 over {push,pop,clear,peek} and random.  After every op the full contents (Each), Len, IsEmpty and every cursor's AtEnd/Get (Front/Peek/Top/Slice for Q and S) are recorded.  Scale streams (every tier): each container grown to 2^k-1, 2^k, 2^k+1 elements (stack k<=11 and 2^12+1, queue k<=10, list k<=10 and one size at 2^11 in the quick tier; stack k<=13, queue and list k<=11 and one list of 2^12 thorough) and a few random sizes, drained by single Pop/Remove calls (lists also by Truncate and through a middle cursor) to 1/2, 1/4, 1/8, 1/16 of that and to one element, regrown (at a varying point and at the end) and drained past empty; after every phase the whole contents (Slice/Each as a digest above 200 values), Len, IsEmpty, Top/Front, Peek at the top, in the middle, at the last element and past it, and the order of the popped values; up to 2^9 (stack) / 2^6 (queue, list) every fraction is crossed by four single, individually observed calls.  Non-trivial: a list history in which a stale cursor was observed or used, a cursor sat at the end, or Truncate was followed by Add at End; a queue history with Add after the queue was emptied; every stack history with a pop.  Round 5 (stacktyped.go): S<t><c> lines = stack.Stack at int, byte, bool, int16, [3]byte, float32, *int, string and a 40-byte struct (element codes mapped to values in the harness) from New and from the zero value: every history over {push, push of a second code, pop, clear, slice, peek:0} to depth 4 (zero value) / 3 (New) (thorough 4, and 5 from the zero value for byte, bool and the struct), snapshots returned by Slice kept and compared after every later op, extreme offsets, random histories, op reach = Each whose callback calls Len/IsEmpty/Top/Peek/nested Each/Slice of the same stack at every element plus two iter.Pull iterations zipped, sizes 7..257 grown, drained to 1/2..1/16 and regrown (one quiet history of 1025 elements for a third of the types), and spec-only histories of exactly 2^15-1 .. 2^16+1 elements (quick 2, thorough 28).",
 		exec, func(g *tr.G) {
 			stop := func() bool { return hangs.Load() >= 3 }
 			emitL := func(ops []string, tags ...string) {
